@@ -238,6 +238,9 @@ pub fn check_names(w: &str, stats: &mut Stats) -> Vec<Failure> {
     src.push_str("#[tauri::command]\npub fn mixed(user_id: i32, on_big_event: Channel<FormSchema>, opt_name: Option<String>) {}\n");
     // a mapped external type (Timestamp -> number in both runs) as a parameter and inside a channel message
     src.push_str("\n#[tauri::command]\npub fn ticks(since: Timestamp, on_tick: Channel<Vec<Timestamp>>) {}\n");
+    // a mapped type that the project defines itself (Stamp -> number): neither mode declares it or
+    // what only it reaches
+    src.push_str("\n#[derive(Debug, Clone, Serialize, Deserialize)]\npub struct Zone {\n    pub offset: i32,\n}\n\n#[derive(Debug, Clone, Serialize, Deserialize)]\npub struct Stamp {\n    pub secs: u64,\n    pub zone: Zone,\n}\n\n#[derive(Debug, Clone, Serialize, Deserialize)]\npub struct Entry {\n    pub at: Stamp,\n    pub label: String,\n}\n\n#[tauri::command]\npub fn log_entry(e: Entry, at: Option<Stamp>) -> Vec<Entry> {\n    todo!()\n}\n");
     // types that only an event payload reaches (no command mentions them), nested through the same wrap
     let via = wrap(w, Ty::named("Origin"), false);
     src.push_str("\n#[derive(Debug, Clone, Default, Serialize, Deserialize, PartialEq, Eq, Hash)]\npub struct Origin {\n    pub host: String,\n    pub stage: Stage,\n}\n\n");
@@ -246,7 +249,7 @@ pub fn check_names(w: &str, stats: &mut Stats) -> Vec<Failure> {
     src.push_str("pub fn announce(app: &AppHandle) {\n    app.emit(\"notice\", Notice { text: String::new(), origin: Default::default() }).unwrap();\n}\n");
     must_parse("src/lib.rs", &src);
     let files = [("src/lib.rs".to_string(), src.clone())];
-    let mapping = vec![("Timestamp".to_string(), "number".to_string())];
+    let mapping = vec![("Timestamp".to_string(), "number".to_string()), ("Stamp".to_string(), "number".to_string())];
     let out_n = generate(&files, &Cfg { type_mappings: mapping.clone(), ..Cfg::mode("none") });
     let out_z = generate(&files, &Cfg { type_mappings: mapping, ..Cfg::mode("zod") });
     stats.eval();
